@@ -3,6 +3,7 @@
   Property theorems only (helper lemmas live in LtVerif/Proofs).
 -/
 import LtVerif.Proofs.Path
+import LtVerif.Proofs.PathPtr
 import LtVerif.Proofs.Docroot
 namespace LtVerif.C02
 open LtVerif B
@@ -58,6 +59,28 @@ theorem c02_simplify_no_dot_segment (s : Bytes) (h : s.head? = some slash) :
 /-- non-vacuity: a traversal attempt is absolute and is collapsed to the root -/
 example : pathSimplify (ofString "/a/../../etc/./passwd") = ofString "/etc/passwd" := by decide
 example : (ofString "/a/../../etc/./passwd").head? = some slash := by decide
+
+/-- THE ALGORITHM: the cursor-level transcription of buffer.c:buffer_path_simplify() (Model/PathPtr.lean:
+    pre-scan, in-place copy, back-up on "../", sentinel at `end`, relative heads) computes the
+    segment-stack specification `pathSimplify` - for every byte string, NUL included.  The C is compared
+    with the transcription by the harness; the canonical-path theorems transfer to it by this equation. -/
+theorem c02_simplify_algorithm (s : Bytes) : pathSimplifyPtr s = pathSimplify s :=
+  pathSimplifyPtr_eq s
+
+/-- hence: what the C's algorithm returns for an absolute path is canonical -/
+theorem c02_simplify_algorithm_canonical (s : Bytes) (h : s.head? = some slash) :
+    CanonicalAbs (pathSimplifyPtr s) := by
+  rw [pathSimplifyPtr_eq]; exact c02_simplify_canonical s h
+
+example : pathSimplifyPtr (ofString "/a/../../etc/./passwd") = ofString "/etc/passwd" := by decide
+example : pathSimplifyPtr (ofString "a/b/../../../x/") = ofString "/x/" := by decide
+
+/-- the written prefix never overtakes the unread input (the in-place writes of the C cannot clobber a
+    byte that is still to be read): each step moves bytes from the input to the output or drops them -/
+theorem c02_simplify_in_place_safe (po rest : Bytes) :
+    (ptrCopy po rest).1.length + (ptrCopy po rest).2.length = po.length + rest.length ∧
+    (ptrBackScan po).length ≤ po.length :=
+  ⟨ptrCopy_length rest po, ptrBackScan_length po⟩
 
 /-! ## extension: every way a filesystem path is derived -/
 
@@ -148,6 +171,35 @@ theorem c02_decode_no_ctl : ∀ (s : Bytes), ∀ b ∈ urldecodePath s, b ∈ s 
     exact hcons b (h :: l :: rest) _ x ih (fun y hy => by simp [hy]) (by simp) hx
 
 example : urldecodePath (ofString "/a%00%1f%7f%2e") = ofString "/a___." := by decide
+
+/-- decode + simplify invent no NUL: a NUL-free raw path gives a NUL-free url-path ("%00" becomes '_') -/
+theorem c02_decode_simplify_nul_free (s : Bytes) (h : (0 : UInt8) ∉ s) :
+    (0 : UInt8) ∉ pathSimplify (urldecodePath s) := by
+  intro hm
+  rcases pathSimplify_bytes _ 0 hm with e | e
+  · exact absurd e (by decide)
+  · rcases c02_decode_no_ctl s 0 e with e' | e'
+    · exact h e'
+    · exact absurd e'.1 (by decide)
+
+/-- http_request_parse_target() without url-normalize: a NUL-free target gives a NUL-free url-path.
+    PARTIAL: with url-normalize on, the same needs "burl_normalize emits no NUL" (every NUL is
+    percent-encoded because the extracted `encoded_chars_http_uri_reqd[0]` is set) - not proved; the NUL-free
+    precondition of the request path itself is C01's (the parser refuses NUL in the request line). -/
+theorem c02_target_nul_free_partial (o : Opts) (t : Bytes) (u : Target) (hn : o.urlNormalize = false)
+    (h0 : (0 : UInt8) ∉ t) (h : parseTarget o false t = .ok u) : (0 : UInt8) ∉ u.path := by
+  unfold parseTarget at h
+  simp only [Bool.false_eq_true, ↓reduceIte, hn] at h
+  have hsub : ∀ (n : Nat), (0 : UInt8) ∉ (t.takeWhile (· ≠ hash)).take n := fun n hm =>
+    h0 ((List.takeWhile_sublist _).subset ((List.take_sublist _ _).subset hm))
+  split at h <;>
+  · split at h
+    · simp only [Except.ok.injEq] at h
+      subst h
+      first
+        | exact c02_decode_simplify_nul_free _ (hsub _)
+        | exact c02_decode_simplify_nul_free _ (fun hm => h0 ((List.takeWhile_sublist _).subset hm))
+    · simp at h
 
 /-- request_check_hostname() (host-strict, the default): an accepted host contains no '/', and its
     name part (before the port) is one clean path segment: not empty, not "." or "..", no '/';
